@@ -91,12 +91,17 @@ func TestRetryModel(t *testing.T) {
 					r.RandomizationFactor = c.RF
 				}
 			}
+			// a (far away) MaxElapsedTime may be configured as well: the message context ends the retries all the same
+			if rapid.Bool().Draw(t, "maxElapsedTimeSetToo") {
+				r.MaxElapsedTime = time.Hour
+			}
 			planned := c.MaxRetries + 1
 			if c.Fails >= 0 && c.Fails < planned {
 				planned = c.Fails // cancel only happens in a failing attempt
 			}
 			if planned < 1 {
 				c.Mode = 0
+				r.MaxElapsedTime = 0
 				r.InitialInterval, r.MaxInterval = initial, maxInt
 			} else {
 				c.CancelAt = rapid.IntRange(1, planned).Draw(t, "cancelAtAttempt")
